@@ -244,6 +244,25 @@ Section CHAIN.
     unfold routes_of_root in H. apply filter_In in H. exact (proj1 H).
   Qed.
 
+  Lemma find_route_not_301 : forall crs m p ps seen, find_route crs m p ps seen <> F301.
+  Proof.
+    induction crs as [|x r IH]; intros m p ps seen; cbn.
+    - destruct seen; discriminate.
+    - destruct (path_match x p ps); [destruct (method_ok (cr_route x) m); [discriminate|apply IH] | apply IH].
+  Qed.
+  Lemma route_request_301 : forall crs m p, route_request crs m p = F301 -> path_clean p = false.
+  Proof.
+    intros crs m p H. unfold route_request in H. destruct (path_clean p); [|reflexivity].
+    exfalso. exact (find_route_not_301 _ _ _ _ _ H).
+  Qed.
+
+  Lemma route_request_in : forall ops root m p rt,
+    route_request (compile ops root) m p = FRoute rt -> In rt (reachable_routes ops).
+  Proof.
+    intros ops root m p rt H. unfold route_request in H. destruct (path_clean p); [|discriminate].
+    eapply find_route_in; eauto.
+  Qed.
+
   Lemma ok_guarded : forall ops rt, assembly_ok ops = true -> In rt (reachable_routes ops) ->
     guarded (chain ops (rt_router rt)) = true.
   Proof.
@@ -255,8 +274,8 @@ Section CHAIN.
     In EvHandler (p_trace (dispatch ce login pass other h ops root q)) -> verdict_of q = VPass.
   Proof.
     intros ops root q Hok. unfold dispatch, dispatch_c.
-    destruct (find_route (compile ops root) (q_method q) (q_path q) (split_on "/"%char (q_path q)) false) as [rt| |] eqn:F; cbn; try contradiction.
-    apply serve_handler_inv. apply guarded_has_auth. eapply ok_guarded; eauto. eapply find_route_in; eauto.
+    destruct (route_request (compile ops root) (q_method q) (q_path q)) as [rt| | |] eqn:F; cbn; try contradiction.
+    apply serve_handler_inv. apply guarded_has_auth. eapply ok_guarded; eauto. eapply route_request_in; eauto.
   Qed.
 
   Lemma dispatch_reject : forall ops root q, assembly_ok ops = true -> verdict_of q <> VPass ->
@@ -264,13 +283,17 @@ Section CHAIN.
     ~ In EvHandler (p_trace p) /\ p_gzip p = false /\
     ((p_status p = verdict_status (verdict_of q) /\ exists pre, forallb transparent pre = true /\
          p_trace p = (map EvNext pre ++ [EvReject (verdict_status (verdict_of q))])%list)
-     \/ ((p_status p = 404%N \/ p_status p = 405%N) /\ p_trace p = [])).
+     \/ ((p_status p = 404%N \/ p_status p = 405%N \/ (p_status p = 301%N /\ path_clean (q_path q) = false)) /\ p_trace p = [])).
   Proof.
     intros ops root q Hok Hv p. split.
     - intros Hr. apply Hv. eapply dispatch_handler_inv; eauto.
     - subst p. unfold dispatch, dispatch_c.
-      destruct (find_route (compile ops root) (q_method q) (q_path q) (split_on "/"%char (q_path q)) false) as [rt| |] eqn:F; cbn [plain p_gzip p_status p_trace]; auto.
-      assert (Hg : guarded (chain ops (rt_router rt)) = true) by (eapply ok_guarded; eauto; eapply find_route_in; eauto).
+      destruct (route_request (compile ops root) (q_method q) (q_path q)) as [rt| | |] eqn:F; cbn [plain p_gzip p_status p_trace].
+      2:{ split; [reflexivity|]. right. split; [|reflexivity]. right. left. reflexivity. }
+      2:{ split; [reflexivity|]. right. split; [|reflexivity]. left. reflexivity. }
+      2:{ split; [reflexivity|]. right. split; [|reflexivity]. right. right. split; [reflexivity|].
+          eapply route_request_301; eauto. }
+      assert (Hg : guarded (chain ops (rt_router rt)) = true) by (eapply ok_guarded; eauto; eapply route_request_in; eauto).
       destruct (serve_reject _ q Hg Hv) as [Hs [Hz [_ Ht]]]. split; [exact Hz|]. left. split; [exact Hs|].
       exists (before_auth (chain ops (rt_router rt))). split; [|exact Ht].
       clear -Hg. induction (chain ops (rt_router rt)) as [|m r IH]; [reflexivity|].
@@ -363,16 +386,20 @@ Section CHAIN2.
     handler_ran p = false /\ p_gzip p = false /\
     ((p_status p = 401%N /\ p_www p = true /\ exists pre, forallb transparent pre = true /\
          p_trace p = (map EvNext pre ++ [EvReject 401%N])%list)
-     \/ ((p_status p = 404%N \/ p_status p = 405%N) /\ p_www p = false /\ p_trace p = [])).
+     \/ ((p_status p = 404%N \/ p_status p = 405%N \/ (p_status p = 301%N /\ path_clean (q_path q) = false)) /\
+         p_www p = false /\ p_trace p = [])).
   Proof.
     intros ops root q Hok Ha p.
     assert (Hv : basic_auth_gen ce login pass (q_auth q) <> VPass) by (rewrite Ha, no_header_challenged; discriminate).
     destruct (dispatch_reject ce login pass other h ops root q Hok Hv) as [Hn [Hz _]]. fold p in Hn, Hz.
     split; [apply handler_ran_false; exact Hn|]. split; [exact Hz|].
     subst p. unfold dispatch, dispatch_c in *.
-    destruct (find_route (compile ops root) (q_method q) (q_path q) (split_on "/"%char (q_path q)) false) as [rt| |] eqn:F;
-      cbn [plain p_status p_www p_trace]; auto.
-    assert (Hg : guarded (chain ops (rt_router rt)) = true) by (eapply ok_guarded; eauto; eapply find_route_in; eauto).
+    destruct (route_request (compile ops root) (q_method q) (q_path q)) as [rt| | |] eqn:F;
+      cbn [plain p_status p_www p_trace].
+    2:{ right. split; [|auto]. right. left. reflexivity. }
+    2:{ right. split; [|auto]. left. reflexivity. }
+    2:{ right. split; [|auto]. right. right. split; [reflexivity|]. eapply route_request_301; eauto. }
+    assert (Hg : guarded (chain ops (rt_router rt)) = true) by (eapply ok_guarded; eauto; eapply route_request_in; eauto).
     destruct (serve_reject ce login pass other h _ q Hg Hv) as [Hs [_ [Hw Ht]]].
     rewrite Ha, no_header_challenged in Hs, Hw, Ht. cbn in Hs, Hw, Ht.
     left. split; [exact Hs|]. split; [exact Hw|].
@@ -440,9 +467,11 @@ Section ASSEMBLY.
                     b64_decode_prefix rest = login ++ ":" ++ pass) /\
     (exact_credentials login pass (q_auth q) = false ->
        handler_ran p = false /\ p_gzip p = false /\
-       (p_status p = 401 \/ p_status p = 400 \/ p_status p = 404 \/ p_status p = 405)%N /\
+       (p_status p = 401 \/ p_status p = 400 \/ p_status p = 404 \/ p_status p = 405 \/
+        (p_status p = 301 /\ path_clean (q_path q) = false))%N /\
        ((p_status p = 401 \/ p_status p = 400)%N -> exists pre, forallb transparent pre = true /\
-          p_trace p = (map EvNext pre ++ [EvReject (p_status p)])%list)).
+          p_trace p = (map EvNext pre ++ [EvReject (p_status p)])%list) /\
+       ((p_status p = 404 \/ p_status p = 405 \/ p_status p = 301)%N -> p_trace p = [])).
   Proof.
     intros root q p. split.
     - intros Hr. apply handler_ran_In in Hr.
@@ -455,11 +484,14 @@ Section ASSEMBLY.
       destruct (dispatch_reject true login pass other h ops root q Hok Hv) as [Hn [Hz Hs]]. fold p in Hn, Hz, Hs.
       split; [apply handler_ran_false; exact Hn|]. split; [exact Hz|].
       destruct Hs as [[Hs [pre [Hp Ht]]] | [Hs Ht]].
-      + split.
+      + split; [|split].
         * rewrite Hs. destruct (not_pass_status _ _ _ _ Hv) as [-> | ->]; auto.
         * intros _. exists pre. split; [exact Hp|]. rewrite Hs. exact Ht.
-      + split; [destruct Hs; auto|].
-        intros [E|E]; destruct Hs as [Hs|Hs]; rewrite Hs in E; discriminate.
+        * rewrite Hs. destruct (not_pass_status _ _ _ _ Hv) as [-> | ->]; intros [E|[E|E]]; discriminate.
+      + split; [|split].
+        * destruct Hs as [Hs|[Hs|Hs]]; auto 6.
+        * intros [E|E]; destruct Hs as [Hs|[Hs|[Hs _]]]; rewrite Hs in E; discriminate.
+        * intros _. exact Ht.
   Qed.
 
   Hypothesis Hknown : assembly_known ops = true.
@@ -472,7 +504,7 @@ Section ASSEMBLY.
   Proof.
     intros root q rt Hl Ha F p. subst p. unfold dispatch, dispatch_c. unfold lookup in F. rewrite F.
     assert (Hk : forallb known (chain ops (rt_router rt)) = true).
-    { unfold assembly_known in Hknown. rewrite forallb_forall in Hknown. apply Hknown. eapply find_route_in; eauto. }
+    { unfold assembly_known in Hknown. rewrite forallb_forall in Hknown. apply Hknown. eapply route_request_in; eauto. }
     assert (Hv : basic_auth_gen true login pass (q_auth q) = VPass) by (rewrite Ha; apply right_header_passes; exact Hl).
     destruct (serve_pass true login pass other h _ q Hk Hv) as [Hs Ht].
     split; [|split; assumption]. apply handler_ran_In. rewrite Ht. apply in_or_app. right. left. reflexivity.
